@@ -1,6 +1,7 @@
 #!/bin/bash
 # Offline build of the verification harness against /repo's current working tree.
 set -e
-cd /verif/harness
+ROOT="$(cd "$(dirname "$0")" && pwd)"
+cd "$ROOT/harness"
 export CARGO_NET_OFFLINE=true
 cargo build --release --offline 2>&1 | tail -3
